@@ -52,6 +52,18 @@ AddObj(pc, o) ==
   /\ nid' = nid + 1
   /\ created' = created \cup {pc}
 
+\* a new group that is created together with links name -> object id (CreateGroupWithLinks)
+AddObjL(pc, L) ==
+  LET par == ParentOf(pc) IN
+  /\ objs' = [i \in DOMAIN objs \cup {nid} |->
+                IF i = nid THEN [Obj("group") EXCEPT !.links = L,
+                                                      \* more than 8 links: dense link storage (fractal heap + B-tree v2)
+                                                      !.t = IF Cardinality(DOMAIN L) > 8 THEN <<"dense">> ELSE <<>>]
+                ELSE IF i = par THEN [objs[i] EXCEPT !.links = FnPut(@, Last(pc), nid)]
+                ELSE objs[i]]
+  /\ nid' = nid + 1
+  /\ created' = created \cup {pc} \cup {Append(pc, n) : n \in DOMAIN L}
+
 AddLink(pc, id) ==
   /\ objs' = [objs EXCEPT ![ParentOf(pc)].links = FnPut(@, Last(pc), id)]
   /\ created' = created \cup {pc}
